@@ -19,6 +19,15 @@ def query (c : Content) (q : Json) : Except String Json := do
   | [.str "fluxes", v, t] => pure (resJ (assocJ ratJ) (Mxl.getFluxes c (← optVars v) (← jRat t)))
   | [.str "rhs", v, t] => pure (resJ (assocJ ratJ) (Mxl.getRhsQ c (← optVars v) (← jRat t)))
   | [.str "call", t, xs] => pure (resJ ratsJ (Mxl.callRhs c (← jRat t) (← jList jRat xs)))
+  | [.str "tc", rows] => do
+      let rs ← jList (jPair jRat (jAssoc jRat)) rows
+      let a := Mxl.getArgsTC c rs
+      let f := Mxl.getFluxesTC c rs
+      let r := match a with
+        | .ok argRows => Mxl.getRhsTC c ((rs.map (·.1)).zip argRows)
+        | .error e => .error e
+      let rowsJ := fun (x : List (List (String × Rat))) => Json.arr (x.map (assocJ ratJ)).toArray
+      pure (Json.mkObj [("args", resJ rowsJ a), ("fluxes", resJ rowsJ f), ("rhs", resJ rowsJ r)])
   | [.str "stoich", v, t] =>
       pure (resJ (assocJ (assocJ ratJ)) (Mxl.getStoich c (← optVars v) (← jRat t)))
   | _ => .error s!"bad query {q.compress}"
